@@ -75,7 +75,7 @@ prop("C19",
 
 prop("C16",
      [r_wrf.rule_frame, r_wrf.rule_standardize, r_wrf.rule_refresh, r_wrf.rule_determinism, r_wl.rule_measure, r_wl.rule_copy_vers,
-      r_wrf.rule_snapshot, r_lp.rule_write_no_state, r_wrf.rule_frame_replace, r_wrf.rule_refresh_precision],
+      r_wrf.rule_snapshot, r_lp.rule_write_no_state, r_wrf.rule_frame_replace, r_wrf.rule_refresh_precision, r_wl.rule_ord_table],
      "Frame condition by may-write effect summaries: the set of locations writer.write / LASFile.write may modify "
      "through the LASFile (access paths with aliasing through loop variables and properties, propagated over the "
      "resolved call graph; SectionItems/HeaderItem hooks by contract) is a subset of the documented side effects - "
@@ -574,9 +574,26 @@ ALSO6 = {
            "match()), HDR.GEN-RESUME (no loop asks a generator for more after catching an exception out of it).",
     "C20": "Round 6: a `yield` inside the with-statement that owns a handle; `with <handle> as f:` releases on every exit.",
 }
+ALSO7 = {
+    "C01": "Round 7: DATA.ENGINE-SELECT decided by exploration when the selection is not an if-chain, and its flag-type clause (the WRAP "
+           "flag keeps one type between the place that derives it and the places that test it).",
+    "C09": "Round 7: LINE.WS-SET (a hand-written set of white-space characters used to strip or test lines contains what str.strip() removes).",
+    "C10": "Round 7: LINE.WS-SET; PU.CHANNEL bom-open (the handle that is read is opened with the encoding the BOM test chose).",
+    "C12": "Round 7: DATA.ENGINE-SELECT flag-type; WR.DATA-FORMAT separator clause (a cell is padded to the field width plus the spacer).",
+    "C13": "Round 7: SI.TRANSFORMS-FIRST (mnemonic transforms are fixed on the section before the first item is appended).",
+    "C14": "Round 7: LF.NO-MODULE-STATE (the curve editors keep no state in module- or class-level containers).",
+    "C15": "Round 7: SI.TRANSFORMS-FIRST; SI.SETATTR-EXCLUSIVE (__setattr__ either replaces an item or sets an attribute, never both).",
+    "C16": "Round 7: the unit variable is not re-bound between the stores of WR.REFRESH; ORD.TABLE (the 1.x order decoder; the refreshed "
+           "STRT/STOP/STEP lines are laid out through it).",
+    "C17": "Round 7: PK.MEMO (__deepcopy__ hands its memo to every nested deepcopy).",
+    "C18": "Round 7: EX.CSV (the csv.writer receives the caller's **kwargs).",
+    "C20": "Round 7: IO.CALLER-OWNED also for `with <caller's object>:` (a with-statement closes what it is given).",
+}
 for _pid, _txt in ALSO.items():
     PROPS[_pid]["explanation"] += " " + _txt
 for _pid, _txt in ALSO6.items():
+    PROPS[_pid]["explanation"] += " " + _txt
+for _pid, _txt in ALSO7.items():
     PROPS[_pid]["explanation"] += " " + _txt
 for _pid, _txt in ALSO4.items():
     PROPS[_pid]["explanation"] += " " + _txt
